@@ -11,11 +11,11 @@ import (
 // schema over generic JSON values.  It does not use any of the library's types.
 
 type frameInfo struct {
-	Kind   string // response | error | notification | request | invalid
-	ID     string // raw JSON text of the id ("" if absent)
-	Method string
-	Obj    map[string]json.RawMessage
-	Result json.RawMessage
+	Kind    string // response | error | notification | request | invalid
+	ID      string // raw JSON text of the id ("" if absent)
+	Method  string
+	Obj     map[string]json.RawMessage
+	Result  json.RawMessage
 	ErrCode int
 	ErrMsg  string
 }
